@@ -1,4 +1,5 @@
 import Aiortc.Lemmas.C03.Offer3
+import Aiortc.Lemmas.C03.Roles
 set_option linter.unusedSimpArgs false
 /-!
 C03, round 2 — `setRemoteDescription` (offer or answer) on a connection that satisfies the structural invariant for
@@ -83,10 +84,16 @@ structure RemoteApplied (pc pc' : Pc) (d : Desc) : Prop where
   locals : pc'.pendingLocal = pc.pendingLocal ∧ pc'.currentLocal = pc.currentLocal
   offer : d.type = .offer → pc'.sig = .haveRemoteOffer ∧ pc'.pendingRemote = some d ∧ pc'.currentRemote = pc.currentRemote
   answer : d.type = .answer → pc'.sig = .stable ∧ pc'.currentRemote = some d ∧ pc'.pendingRemote = none
+  /-- after BUNDLE every section of the description sits on one transport -/
+  onPrimary : ∃ p, (∀ t ∈ pc'.transceivers, (∃ m ∈ d.media, m.kind.isMedia = true ∧ t.mid = some m.mid) → t.transport = p) ∧
+    (∀ s, pc'.sctp = some s → (∃ m ∈ d.media, m.kind.isMedia = false) → s.transport = p)
+  rolesOffer : d.type = .offer → (∀ m ∈ d.media, m.setup = .auto) → RoleSame pc.transports pc'.transports
+  rolesAnswer : ∀ w, d.type = .answer → (∀ m ∈ d.media, oppRole m.setup = w) → RoleStep w pc.transports pc'.transports
 
 theorem setRemote_ok {pc : Pc} {d : Desc} (hv : pc.validate d false = .ok ()) (hb : d.bundle = d.media.map (·.mid))
     (hnd : ((keysOf d).map (·.2)).Nodup) (hP : Pre (keysOf d) pc.transceivers)
-    (hacc : ∀ m ∈ d.media, m.kind.isMedia = true → Accepts pc.transceivers m) (hfit : SctpFits pc d.media) :
+    (hacc : ∀ m ∈ d.media, m.kind.isMedia = true → Accepts pc.transceivers m) (hfit : SctpFits pc d.media)
+    (hsin : ∀ x, pc.sctpMid = some x → (Kind.application, x) ∈ keysOf d) :
     ∃ pc', pc.setRemote d = .ok pc' ∧ RemoteApplied pc pc' d := by
   obtain ⟨pc1, h1, r⟩ := pre_fold (typ := d.type) hnd d.media pc 0 hP
     (fun j m hj => by rw [Nat.zero_add]; exact keys_getElem hj) hacc hfit
@@ -105,28 +112,28 @@ theorem setRemote_ok {pc : Pc} {d : Desc} (hv : pc.validate d false = .ok ()) (h
   simp only [Pc.slots, Prod.mk.injEq] at hslots1 f1
   -- the result, by type of the description
   have hres : ∃ pc', pc.setRemote d = .ok pc' ∧ pc'.transceivers = pc2.transceivers ∧ pc'.seenMids = pc2.seenMids ∧
-      pc'.sctp = pc2.sctp ∧ pc'.pendingLocal = pc2.pendingLocal ∧ pc'.currentLocal = pc2.currentLocal ∧
+      pc'.sctp = pc2.sctp ∧ pc'.pendingLocal = pc2.pendingLocal ∧ pc'.currentLocal = pc2.currentLocal ∧ pc'.transports = pc2.transports ∧
       (d.type = .offer → pc'.sig = .haveRemoteOffer ∧ pc'.pendingRemote = some d ∧ pc'.currentRemote = pc2.currentRemote) ∧
       (d.type = .answer → pc'.sig = .stable ∧ pc'.currentRemote = some d ∧ pc'.pendingRemote = none) := by
     have hb' : pc1.applyBundleWith bundleStep d.bundle = .ok pc2 := by rw [hb]; exact h2
     cases ht : d.type
-    · refine ⟨{ pc2 with sig := .haveRemoteOffer, pendingRemote := some d }, ?_, rfl, rfl, rfl, rfl, rfl,
+    · refine ⟨{ pc2 with sig := .haveRemoteOffer, pendingRemote := some d }, ?_, rfl, rfl, rfl, rfl, rfl, rfl,
         fun _ => ⟨rfl, rfl, rfl⟩, fun hh => (by cases hh)⟩
       unfold Pc.setRemote Pc.setRemoteWith
       rw [ht] at h1
       simp only [hv, ht, h1, hb']
       rfl
-    · refine ⟨{ pc2 with sig := .stable, currentRemote := some d, pendingRemote := none }, ?_, rfl, rfl, rfl, rfl, rfl,
+    · refine ⟨{ pc2 with sig := .stable, currentRemote := some d, pendingRemote := none }, ?_, rfl, rfl, rfl, rfl, rfl, rfl,
         fun hh => (by cases hh), fun _ => ⟨rfl, rfl, rfl⟩⟩
       unfold Pc.setRemote Pc.setRemoteWith
       rw [ht] at h1
       simp only [hv, ht, h1, hb']
       rfl
-  obtain ⟨pc', hok, e1, e2, e3, e4, e5, e6, e7⟩ := hres
+  obtain ⟨pc', hok, e1, e2, e3, e4, e5, e6, e7, e8⟩ := hres
   have hsm : pc'.sctpMid = pc1.sctpMid := by simp [Pc.sctpMid, e3]; exact f3
   refine ⟨pc', hok, ?_⟩
   refine { pre := by rw [e1]; exact r.pre.congr hshape, owners := ?_, prefs := ?_, media := ?_, seen := ?_, sctpApp := ?_,
-           sctpOld := ?_, locals := ?_, offer := ?_, answer := e7 }
+           sctpOld := ?_, locals := ?_, offer := ?_, answer := e8, onPrimary := ?_, rolesOffer := ?_, rolesAnswer := ?_ }
   · intro j m hj hk
     obtain ⟨t, ht, hN, hl⟩ := r.owners j m hj hk
     refine ⟨g t, by rw [e1, hmap]; exact List.mem_map_of_mem ht, hN.sameBut (hg t), ?_⟩
@@ -145,7 +152,113 @@ theorem setRemote_ok {pc : Pc} {d : Desc} (hv : pc.validate d false = .ok ()) (h
   · rw [hsm]; exact r.sctpOld
   · exact ⟨by rw [e4, f1.2.1, hslots1.2.1], by rw [e5, f1.2.2.1, hslots1.2.2.1]⟩
   · intro ht
-    obtain ⟨a1, a2, a3⟩ := e6 ht
+    obtain ⟨a1, a2, a3⟩ := e7 ht
     exact ⟨a1, a2, by rw [a3, f1.2.2.2.2, hslots1.2.2.2.2]⟩
+  · -- everything on the primary transport
+    cases hmed : d.media with
+    | nil => exact ⟨0, fun t _ hm => by obtain ⟨m, hm, _⟩ := hm; simp [hmed] at hm, fun s _ hm => by obtain ⟨m, hm, _⟩ := hm; simp [hmed] at hm⟩
+    | cons m0 rest =>
+      have hm0 : m0 ∈ d.media := by rw [hmed]; simp
+      have hsame : ∀ m1 ∈ d.media, ∀ m2 ∈ d.media, m1.mid = m2.mid → m1.kind = m2.kind := by
+        intro m1 hm1 m2 hm2 hmm
+        obtain ⟨j1, hj1⟩ := List.getElem?_of_mem hm1
+        obtain ⟨j2, hj2⟩ := List.getElem?_of_mem hm2
+        have k1 := keys_getElem hj1
+        have k2 := keys_getElem hj2
+        rw [hmm] at k1
+        exact (keys_index_inj hnd k1 k2).2
+      have hnotrest : m0.mid ∉ rest.map (·.mid) := by
+        have : ((keysOf d).map (·.2)) = m0.mid :: rest.map (·.mid) := by simp [keysOf, hmed, List.map_map, Function.comp_def]
+        rw [this] at hnd
+        exact (List.nodup_cons.mp hnd).1
+      -- the primary transport
+      have hprim : ∃ p, pc1.primaryTransport m0.mid = some p ∧
+          (m0.kind.isMedia = true → ∀ t ∈ pc1.transceivers, t.mid = some m0.mid → t.transport = p) ∧
+          (m0.kind.isMedia = false → ∀ s, pc1.sctp = some s → s.transport = p) := by
+        unfold Pc.primaryTransport
+        cases hk : m0.kind.isMedia
+        · have := r.sctpApp m0 hm0 hk
+          simp only [Pc.sctpMid] at this
+          cases hs : pc1.sctp with
+          | none => simp [hs] at this
+          | some s =>
+            simp only [hs, Option.bind_some] at this
+            refine ⟨s.transport, by simp [this], (fun hf => absurd hf (by decide)), ?_⟩
+            intro _ s' hs'; cases hs'; rfl
+        · obtain ⟨j, hj⟩ := List.getElem?_of_mem hm0
+          obtain ⟨t0, ht0, hN, _⟩ := r.owners j m0 hj hk
+          obtain ⟨y, hy⟩ := find_some_of_mem (p := fun t : Transceiver => t.mid == some m0.mid) ht0 (by simp [hN.mid])
+          have hym : y ∈ pc1.transceivers := List.mem_of_find?_eq_some hy
+          have hymid : y.mid = some m0.mid := by simpa using List.find?_some hy
+          have huniq : ∀ t ∈ pc1.transceivers, t.mid = some m0.mid → t.transport = y.transport := by
+            intro t ht htm
+            rw [r.pre.unique.eq t ht y hym (by rw [htm, hymid]) (by rw [htm]; simp)]
+          -- the SCTP transport does not carry the mid of a media section
+          have hnosctp : ∀ s, pc1.sctp = some s → s.mid ≠ some m0.mid := by
+            intro s hs hsm
+            have hsm' : pc1.sctpMid = some m0.mid := by simp [Pc.sctpMid, hs, hsm]
+            have hin : (Kind.application, m0.mid) ∈ keysOf d := by
+              rcases r.sctpOld with e | ⟨m', hm', hk', e⟩
+              · rw [e] at hsm'; exact hsin _ hsm'
+              · rw [e] at hsm'
+                have : (m'.kind, m'.mid) ∈ keysOf d := List.mem_map_of_mem hm'
+                rw [kind_not_media hk', Option.some.inj hsm'] at this; exact this
+            obtain ⟨m', hm', he⟩ := List.mem_map.mp hin
+            simp only [Prod.mk.injEq] at he
+            have := hsame m' hm' m0 hm0 he.2
+            rw [he.1] at this
+            rw [← this] at hk; simp [Kind.isMedia] at hk
+          cases hs : pc1.sctp with
+          | none =>
+            refine ⟨y.transport, by simp [Pc.byMid, hy], fun _ => huniq, (fun hf => absurd hf (by decide))⟩
+          | some s =>
+            have := hnosctp s hs
+            refine ⟨y.transport, ?_, fun _ => huniq, (fun hf => absurd hf (by decide))⟩
+            simp only
+            split
+            · rename_i hh; simp at hh; exact absurd hh this
+            · simp [Pc.byMid, hy]
+      obtain ⟨p, hp, hp1, hp2⟩ := hprim
+      have hpc2 : pc2 = bundleStep pc1 p (rest.map (·.mid)) := by
+        rw [hmed] at h2
+        simp only [List.map_cons, Pc.applyBundleWith, hp] at h2
+        cases h2; rfl
+      refine ⟨p, ?_, ?_⟩
+      · intro t' ht' hm
+        rw [e1, hpc2] at ht'
+        simp only [bundleStep, List.mem_map] at ht'
+        obtain ⟨t, ht, rfl⟩ := ht'
+        by_cases hin : inSlaves (rest.map (·.mid)) t.mid = true
+        · simp [hin]
+        · simp only [hin, Bool.false_eq_true, if_false] at hm ⊢
+          obtain ⟨m, hmm, hk, htm⟩ := hm
+          rcases List.mem_cons.mp hmm with rfl | hrest
+          · exact hp1 hk t ht htm
+          · exfalso; apply hin
+            simp [inSlaves, htm]
+            exact ⟨m, hrest, rfl⟩
+      · intro s' hs' hm
+        rw [e3, hpc2] at hs'
+        simp only [bundleStep, Option.map_eq_some_iff] at hs'
+        obtain ⟨s, hs, rfl⟩ := hs'
+        by_cases hin : inSlaves (rest.map (·.mid)) s.mid = true
+        · simp [hin]
+        · simp only [hin, Bool.false_eq_true, if_false]
+          obtain ⟨m, hmm, hk⟩ := hm
+          have hsmid := r.sctpApp m (by rw [hmed]; exact hmm) hk
+          simp only [Pc.sctpMid, hs, Option.bind_some] at hsmid
+          rcases List.mem_cons.mp hmm with rfl | hrest
+          · exact hp2 hk s hs
+          · exfalso; apply hin
+            simp [inSlaves, hsmid]
+            exact ⟨m, hrest, rfl⟩
+  · intro ht hauto
+    rw [e6]
+    rw [ht] at h1
+    exact (applyRemote_roles_offer _ _ _ _ hauto h1).trans (applyBundle_roles h2)
+  · intro w ht hw
+    rw [e6]
+    rw [ht] at h1
+    exact (applyRemote_roles_answer _ _ _ _ hw h1).trans ((applyBundle_roles h2).toStep w)
 
 end Aiortc.Model.Negotiate
